@@ -418,96 +418,10 @@ def _zone_resolution(ctx) -> None:
         ctx.unverified("ZONE.cache", "tz.fixed_timezone", f"{len(keys)} cache accesses, {stores} stores, {len(built)} FixedTimezone(...) calls found", tm.loc(fn))
     else:
         bad_k = [nun(k) for k in keys if nun(k) != p]
-        bad_b = [nun(c) for c in built if [nun(a) for a in c.args] + [f"{k.arg}={nun(k.value)}" for k in c.keywords] not in ([p], [f"offset={p}"])]
+        bad_b = [nun(c) for c in built if [nun(a_) for a_ in c.args] + [f"{k.arg}={nun(k.value)}" for k in c.keywords] not in ([p], [f"offset={p}"])]
         ctx.ob("ZONE.cache", "tz.fixed_timezone", not bad_k and not bad_b,
                f"cache keys {sorted({nun(k) for k in keys})}, zones built {[nun(c) for c in built]}; the interned zone must be keyed by, built "
                f"from and stored under the same `{p}` (e.g. a key of abs({p}) hands the +01:00 zone out for -01:00)", tm.loc(fn))
-    sf = im.func("_safe_timezone")
-    fold_fwd = False
-    for c in core.calls(inst):
-        if core.callee_name(c).endswith("create"):
-            k = core.kw(c)
-            fold_fwd = "fold" in k and nun(k["fold"]) == f"{dtp}.fold"
-    ctx.ob("AWARE-INSTANT.fold", "DateTime.instance/fold", fold_fwd,
-           f"instance() must forward fold={dtp}.fold to create() (fold-driven kinds rely on it)", dm.loc(inst))
-    # locate the tzinfo branch ladder
-    ladder = None
-    for st in ast.walk(sf):
-        if isinstance(st, ast.If) and "isinstance(obj, _datetime.tzinfo)" in un(st.test):
-            ladder = st
-    if ladder is None:
-        ctx.unverified("AWARE-INSTANT.kinds", "_safe_timezone", "tzinfo branch not found", im.loc(sf))
-        return
-    node: ast.stmt | None = ladder.body[0] if ladder.body else None
-    kinds = []
-    while isinstance(node, ast.If):
-        kinds.append((un(node.test), node.body))
-        if len(node.orelse) == 1 and isinstance(node.orelse[0], ast.If):
-            node = node.orelse[0]
-        else:
-            kinds.append(("else", node.orelse))
-            node = None
-    for test, body in kinds:
-        src = "\n".join(un(b) for b in body)
-        if "hasattr(obj, 'key')" in test:
-            verdict, why = True, "zoneinfo kind: same tz rules, wall->instant driven by fold (forwarded)"
-            name = "zoneinfo"
-        elif "hasattr(obj, 'localize')" in test:
-            name = "pytz"
-            verdict = "utcoffset(" in src or "astimezone(" in src
-            why = ("pytz kind: the offset is carried by the tzinfo object, not by fold; mapping the zone *name* and "
-                   "re-interpreting the wall fields loses the instant in the second pass of a repeated hour")
-        elif "tzname(None) == 'UTC'" in test:
-            name, verdict, why = "utc-name", True, "UTC by name: offset 0, no transitions"
-        elif test == "else":
-            name = "other"
-            verdict = "utcoffset(dt)" in src
-            why = "other tzinfo kinds must consult utcoffset(dt) of the value being converted"
-        else:
-            ctx.unverified("AWARE-INSTANT.kinds", f"_safe_timezone/{test}", "unknown tzinfo kind branch", im.loc(sf))
-            continue
-        ctx.ob("AWARE-INSTANT.kinds", f"_safe_timezone/{name}", verdict, why, im.loc(body[0]) if body else im.loc(sf))
-
-
-def _caller_hack(ctx) -> None:
-    m = pmod("datetime")
-    fn = m.func("DateTime.__add__")
-    for n in core.walk_fn(fn):
-        if isinstance(n, ast.Compare) and nun(n.left) == "caller" and isinstance(n.comparators[0], ast.Constant):
-            name = n.comparators[0].value
-            ok = m.has_func(f"DateTime.{name}") and any(
-                nun(c.func) == f"super().{name}" for c in core.calls(m.func(f"DateTime.{name}"))) if m.has_func(f"DateTime.{name}") else False
-            ctx.ob("FUNNEL.caller-hack", f"DateTime.__add__/caller=={name!r}", ok,
-                   f"__add__ special-cases callers named {name!r}: DateTime must define that method and it must "
-                   f"call super().{name} (otherwise astimezone's internal addition is routed through add())", m.loc(n))
-
-
-def _zone_resolution(ctx) -> None:
-    """'reports the requested timezone': name/offset -> zone object resolution, incl. the interned fixed offsets."""
-    im, tm = pmod("__init__"), pmod("tz")
-    fn = im.func("timezone")
-    forms = set()
-    for p in cfg.paths(fn):
-        ex = p.exit()
-        if ex[1] == "return":
-            forms.add((p.holds("isinstance(name, int)"), p.holds("name.lower() == 'utc'"), nun(ex[2].value)))
-    want = {(True, None, "fixed_timezone(name)"), (False, True, "UTC"), (False, False, "Timezone(name)")}
-    ctx.ob("ZONE.resolve", "pendulum.timezone", forms == want,
-           f"timezone(name) resolves as {sorted(map(str, forms))}; an int is a fixed offset in seconds, 'utc' (any case) the UTC singleton, "
-           f"anything else a named zone", im.loc(fn))
-    fn = tm.func("fixed_timezone")
-    forms = set()
-    for p in cfg.paths(fn):
-        ex = p.exit()
-        if ex[1] == "return":
-            hit = p.holds("offset in _tz_cache")
-            v = nun(cfg.subst_path(p, ex[2].value, set()))
-            stores = [nun(st) for st in p.stmts() if isinstance(st, ast.Assign) and nun(st.targets[0]).startswith("_tz_cache[")]
-            forms.add((hit, v, tuple(stores)))
-    want = {(True, "_tz_cache[offset]", ()), (False, "FixedTimezone(offset)", ("_tz_cache[offset] = tz",))}
-    ctx.ob("ZONE.cache", "tz.fixed_timezone", forms == want,
-           f"fixed_timezone(offset) behaves as {sorted(map(str, forms))}; the interned zone must be keyed by, built from and stored under the "
-           f"same `offset`", tm.loc(fn))
     sf = im.func("_safe_timezone")
     src = nun(sf)
     ctx.ob("ZONE.resolve", "_safe_timezone/hours", "if isinstance(obj, (int, float)):\n        obj = int(obj * 60 * 60)" in src,
